@@ -7,8 +7,9 @@ A case carries its operands itself (so a replay file is self-describing).  An op
                                  _SubFloat, _SubStr); 'enum' on an int: as a member of an enum.IntEnum (see var_value)
     {'d': [y, m, d, H, M, S, us]}  a naive datetime injected as a variable
     {'e': 'formula text'}        an operand BORN IN THE FORMULA: a number literal or a small computation
-                                 (`0.1+0.2`), written in parentheses in the comparison; its value is what
-                                 the real implementation evaluates that text to on its own
+                                 (`0.1+0.2`), written in parentheses in the comparison; a plain unsigned literal is worth
+                                 the number it spells (digits: that integer; a decimal: the nearest double), any other text
+                                 what the real implementation evaluates it to on its own
 and a case is {'kind': 'pair', 'a': opnd, 'b': opnd, 'tz': None | POSIX-TZ-string} or
 {'kind': 'triple', 'a', 'b', 'c', 'tz'}.  With 'tz' the implementation is run while the PROCESS time zone
 (os.environ['TZ'] + time.tzset()) is that zone; the oracle and the model request are the same as without.
@@ -41,13 +42,16 @@ FUNCTIONS = ['hotxlfp.formulas.operators:ExcelComparator.__init__', 'hotxlfp.for
              'hotxlfp.grammarparser.parser:FormulaParser.p_expression_logical_operator']
 RULE = ('Cases are pairs (all six operators < = > <= >= <> on the two operands, and > with the operands swapped) and triples '
         '(transitivity); an operand is a variable (int, float, str, logical, blank, naive date-time) or is born in the formula (a '
-        'number literal or a small computation, in parentheses).  First 4 fixed witnesses (`0.3` / `0.30000000000000016` / '
+        'number literal or a small computation, in parentheses; a plain unsigned literal is valued independently of the '
+        'implementation - digits as that integer, a decimal as the nearest double -, every other text at what the implementation '
+        'evaluates it to alone).  First 4 fixed witnesses (`0.3` / `0.30000000000000016` / '
         '`0.30000000000000032` as a pair and a triple; 2021-03-14 02:30 and the number 44269.125 against 2021-03-14 03:15 under '
         'EST5EDT).  '
-        '(1) GENERAL POOL of 37 scalars: 11 numbers (ints, negative and fractional numbers, floats equal to ints, 10^12), 15 texts '
+        '(1) GENERAL POOL of 40 scalars: 11 numbers (ints, negative and fractional numbers, floats equal to ints, 10^12), 15 texts '
         '(empty, one space, numeric-looking, "TRUE", mixed case, prefixes of each other, non-ASCII), TRUE, FALSE, blank, 8 dates and '
-        'date-times (Jan, Feb and 1 March 1900, Jan 2020): all 1369 ordered pairs; triples: quick 3000*scale seeded, thorough all '
-        '50653.  '
+        'date-times (Jan, Feb and 1 March 1900, Jan 2020) and 3 host-supplied date-times before 1900 (1899-06-01 12:00, 1850-01-01, '
+        '1899-12-31 18:00: negative serials): all 1600 ordered pairs; triples: quick 3000*scale seeded, thorough all '
+        '64000.  '
         '(2) NEARLY EQUAL NUMBERS: 12 fixed clusters of 4..7 distinct numbers a few ulps apart (0.3 / 0.1+0.2 / 0.30000000000000016 / '
         '0.30000000000000032 / 0.29999999999999993 and negatives, around 1.0 and -1.0, +-1e15 with ints one apart and floats 0.125 '
         'apart, 1e-15, 123456.789, 0 with -0.0, denormals and 1e-300, +-2^53 with ints and floats one unit apart such as '
@@ -82,9 +86,9 @@ RULE = ('Cases are pairs (all six operators < = > <= >= <> on the two operands, 
         'seeded clusters (4*scale / 40) of 7 under a zone seeded from the three (also in quick): 5 date-times within 00:00..04:59 of '
         'a transition day of a year 1971..2037, one date-time six months away, the number for 01:30 / 03:00 / 04:30 / 07:30 of that '
         'day; and (2*scale / 10) seeded date-time clusters of 10 as in (2) under a seeded zone; all pairs and triples of each.  '
-        'About 37000 cases in quick (103000 at scale 5), 537000 in thorough.  '
+        'About 37000 cases in quick (100000 at scale 5), 548000 in thorough.  '
         'MODEL: a pair whose operands are both variables (re-typed ones are sent as the plain value; with or without zone) is also '
-        'answered by the Lean model, the six formulas x<op>y in one request (about 8100 pairs quick, 27500 thorough); all six records '
+        'answered by the Lean model, the six formulas x<op>y in one request (about 8300 pairs quick, 27600 thorough); all six records '
         'must match (same logical, or same error; a model answer "no opinion" decides nothing); pairs for which the statement accepts '
         'more than one answer (below the resolution of a double serial) are not compared.  Pairs with an operand born in the formula '
         'and all triples are judged by the oracle only; triples containing a blank are not judged.  '
@@ -99,8 +103,9 @@ TRUSTED = ['Python comparison of int/float/str/bool values (modelled: exact rati
            'previous zone is restored after every evaluation, also on exceptions.  The harness\'s own reference (Excel serial of a '
            'naive datetime) is plain timedelta/Fraction arithmetic and never consults the zone; the Lean model has no time zone, so '
            'the same model answer is compared with the implementation\'s answer under every zone',
-           'an operand born in the formula (`0.1+0.2`, `0.30000000000000016`) is given the value Parser.parse returns for that text '
-           'alone; such pairs are judged by the oracle only (the model computes literals and arithmetic in exact decimal rationals, '
+           'an operand born in the formula that is a computation or a signed literal (`0.1+0.2`, `-0.3`) is given the value '
+           'Parser.parse returns for that text alone; a plain unsigned literal (`0.30000000000000016`, `435`) is valued by the '
+           'harness itself: int(text) for digits, float(text) - the correctly rounded double - for a decimal; such pairs are judged by the oracle only (the model computes literals and arithmetic in exact decimal rationals, '
            'so it has no opinion on float rounding).  Literals are positional decimals made from repr(x) and checked to read back as '
            'x with float(); neighbouring doubles come from math.nextafter, ulps from math.ulp',
            'variables reach the model as exact values: ints as ints, floats as the rational they hold, text, logicals, blank, '
@@ -118,7 +123,8 @@ ASSUMPTIONS = ['the order is rank first - number (ints, floats, dates and date-t
                '"numbers order numerically" is judged EXACTLY (the rational value of the int / double); no tolerance: two doubles one '
                'ulp apart are different numbers, and an int beyond 2^53 differs from the nearest double unless equal to it',
                '"dates (by serial)": the order of the exact Excel-1900 serials (days since 1899-12-30, one less before 1 March 1900 - '
-               'no 29 Feb 1900 -, and 1900-01-01T00:00 itself = 0, as in the code; so 1900-01-01 12:00 = 1.5).  The code holds a '
+               'no 29 Feb 1900 -, and 1900-01-01T00:00 itself = 0, as in the code; so 1900-01-01 12:00 = 1.5; a date-time before 1900, '
+               'which only a host can supply, has the negative serial the same rule gives and orders as that number).  The code holds a '
                'serial in a double computed from milliseconds since 1970: when a date-time whose exact serial is NOT a double is '
                'compared with a different number or date-time closer than max(4 ulp of the larger magnitude, 2.5 microseconds), then '
                'against another date-time "=" is accepted besides the exact answer (never the inverted order), and against a number '
